@@ -603,6 +603,49 @@ func TestPointKeyAfterBuiltinWrite(t *testing.T) {
 	evid.Exhaustive("builtin write x bare read x key value x context", n+1)
 }
 
+// TestMessageAlias: the name `_` and the name `message` are one name - as a variable (created by =, op=, a for-in
+// loop variable, a loop clause) and as a key of the point; whichever spelling wrote, both spellings read it.
+func TestMessageAlias(t *testing.T) {
+	writes := []struct {
+		name string
+		mk   func(w string) []*gen.Node
+	}{
+		{"assign", func(w string) []*gen.Node { return []*gen.Node{gen.NSet(w, gen.NStr("var"))} }},
+		{"compound", func(w string) []*gen.Node {
+			return []*gen.Node{gen.NAssign("+=", []*gen.Node{id(w)}, []*gen.Node{gen.NStr("-a")}), gen.NAssign("+=", []*gen.Node{id(w)}, []*gen.Node{gen.NStr("-b")})}
+		}},
+		{"for-in-variable", func(w string) []*gen.Node {
+			return []*gen.Node{gen.NSet("s", gen.NStr("")), gen.NForIn(w, gen.NList(gen.NStr("a"), gen.NStr("b"), gen.NStr("c")), []*gen.Node{gen.NSet("s", gen.NBin("+", id("s"), id("_"))), gen.NCall("probe", gen.NStr("in-loop"), id("_"), id("message"))}), gen.NCall("probe", gen.NStr("s"), id("s"))}
+		}},
+		{"in-block", func(w string) []*gen.Node {
+			return []*gen.Node{gen.NIf([]*gen.Node{gen.NBool(true)}, [][]*gen.Node{{gen.NSet(w, gen.NInt(5)), gen.NCall("probe", gen.NStr("inside"), id("_"), id("message"))}}, nil, false)}
+		}},
+		{"loop-clause", func(w string) []*gen.Node {
+			return []*gen.Node{gen.NFor(gen.NSet("i", gen.NInt(0)), gen.NBin("<", id("i"), gen.NInt(2)), gen.NSet(w, id("i")), []*gen.Node{gen.NSet("i", gen.NBin("+", id("i"), gen.NInt(1))), gen.NCall("probe", gen.NStr("pass"), id("_"), id("message"))})}
+		}},
+		{"add_key", func(w string) []*gen.Node { return []*gen.Node{gen.NCall("add_key", id(w), gen.NStr("from add_key"))} }},
+	}
+	n := 0
+	for _, w := range writes {
+		for _, spelling := range []string{"_", "message"} {
+			for _, msg := range []any{"raw", nil, int64(7), "absent"} {
+				prog := append([]*gen.Node{gen.NCall("probe", gen.NStr("before"), id("_"), id("message"))}, w.mk(spelling)...)
+				prog = append(prog, gen.NCall("probe", gen.NStr("after"), id("_"), id("message")),
+					gen.NIf([]*gen.Node{gen.NBin("==", id("_"), id("message"))}, [][]*gen.Node{{gen.NCall("probe", gen.NStr("same"))}}, []*gen.Node{gen.NCall("probe", gen.NStr("different"))}, true),
+					gen.NSet("copy", id("_")), gen.NCall("add_key", id("seen"), id("copy")))
+				c := sem.NewCase(gen.FixAll(prog))
+				c.Fields = map[string]any{"other": "o"}
+				if msg != "absent" {
+					c.Fields["message"] = msg
+				}
+				judge(t, "alias", c, true, "message-alias/"+w.name)
+				n++
+			}
+		}
+	}
+	evid.Exhaustive("write form x spelling x message value: reads through both spellings", n)
+}
+
 // TestEmptyBranchTable: a truthy branch with an empty block still ends the statement.
 func TestEmptyBranchTable(t *testing.T) {
 	n := 0
